@@ -288,8 +288,18 @@ def run(ctx):
 
 
 def check_objects(ctx, quick):
-    """Objects with methods (ANOVA, order 2): a method without randomness returns the same result whatever was called on
-    the object before (other methods, the same method with other arguments, methods that draw random numbers)."""
+    """Objects with methods (ANOVA, order 2), driven by ObjHistory.tla: TLC emits every sequence of method calls (and
+    'new object' steps) up to length 3; each sequence runs on fresh objects built from the same data and seed, and the
+    real fingerprints are compared by the specification's keys (deterministic method: method + options; stochastic method:
+    method + options + the stochastic calls made before on that object)."""
+    res = tlc.run('ObjHistory', cfg='ObjHistory_faulty.cfg', workers=4, timeout=900, allow_violation=True)
+    if res.violated != 'HistoryIndependent':
+        raise tlc.TlcError('ObjHistory: a leaking implementation does not violate HistoryIndependent: invariant is vacuous')
+    ctx.add_tlc(res, 'ObjHistory non-vacuity: faulty implementation violates HistoryIndependent')
+    res = tlc.run('ObjHistory', cfg='ObjHistory_q.cfg' if quick else 'ObjHistory_t.cfg', workers=8, timeout=1800)
+    ctx.add_tlc(res, 'ObjHistory: every method sequence up to length 3 (emitted)')
+    if not res.json:
+        raise tlc.TlcError('ObjHistory emitted nothing')
     n = [4, 4, 4, 4]
     I = np.vstack([np.random.default_rng(1).integers(0, k, 600) for k in n]).T
     y = 1. + I[:, 0] * I[:, 1] - 0.5 * I[:, 1] * I[:, 2] + 2. * I[:, 0] * I[:, 3] + I[:, 2]
@@ -297,49 +307,55 @@ def check_objects(ctx, quick):
 
     def obj():
         return teneva.ANOVA(I.copy(), y.copy(), order=2, seed=7)
-    probes = {
-        'A(I)': lambda A: A(J.copy()),
-        'A[i]': lambda A: A[J[0].copy()],
-        'cores_2()': lambda A: A.cores_2(),
-        'cores_2(only_near=True)': lambda A: A.cores_2(only_near=True),
-        'cores_2(r=3)': lambda A: A.cores_2(r=3),
-        'cores(noise=0)': lambda A: [G + 0. for G in A.cores(r=3, noise=0.)],
-        'cores(noise=0, only_near=True)': lambda A: [G + 0. for G in A.cores(r=3, noise=0., only_near=True)],
-        'f1_arr': lambda A: A.f1_arr,
-        'f2_arr': lambda A: A.f2_arr,
-        'max()': lambda A: A.max(),
+    methods = {
+        'call': lambda A: A(J.copy()),
+        'getitem': lambda A: A[J[0].copy()],
+        'cores2': lambda A: A.cores_2(),
+        'cores2_near': lambda A: A.cores_2(only_near=True),
+        'cores2_r3': lambda A: A.cores_2(r=3),
+        'f1': lambda A: A.f1_arr,
+        'f2': lambda A: A.f2_arr,
+        'max': lambda A: A.max(),
+        'max_min': lambda A: A.max(min),
+        'cores_r2': lambda A: A.cores(r=2),
+        'cores_r4_near': lambda A: A.cores(r=4, only_near=True),
+        'cores_n0': lambda A: [G + 0. for G in A.cores(r=3, noise=0.)],
+        'cores_n0_near': lambda A: [G + 0. for G in A.cores(r=3, noise=0., only_near=True)],
+        'sample': lambda A: A.sample(),
     }
-    stochastic = {
-        'cores(r=2)': lambda A: A.cores(r=2),
-        'cores(r=4, only_near=True)': lambda A: A.cores(r=4, only_near=True),
-        'sample()': lambda A: A.sample(),
-    }
-    ref = {}
-    for name, p in list(probes.items()):
+    broken = set()
+    for name, m_ in methods.items():
         try:
-            ref[name] = fp(RG.quiet(p, obj()))
+            RG.quiet(m_, obj())
         except Exception as ex:
-            ctx.notes.setdefault('object_probes_skipped', []).append('%s: %s' % (name, type(ex).__name__))
-            del probes[name]
-    for name, p in list(stochastic.items()):
-        try:
-            RG.quiet(p, obj())
-        except Exception as ex:
-            ctx.notes.setdefault('object_probes_skipped', []).append('%s: %s' % (name, type(ex).__name__))
-            del stochastic[name]
-    before = dict(probes)
-    before.update(stochastic)
-    for first, pf in before.items():
-        for second, ps in probes.items():
-            if first == second:
+            # a method that does not work on a fresh object is outside this check (noted, sequences using it are skipped)
+            broken.add(name)
+            ctx.notes.setdefault('object_methods_skipped', []).append('%s: %s' % (name, type(ex).__name__))
+    seen = {}
+    nrun = 0
+    for hist in res.json:
+        if any(st['x'] in broken for st in hist if st['op'] != 'N'):
+            continue
+        nrun += 1
+        A, rseq = obj(), []
+        ctx.case(key=('object-history', tuple((st['op'], st['x']) for st in hist)), nontrivial=len({st['x'] for st in hist}) > 1)
+        for pos, st in enumerate(hist):
+            if st['op'] == 'N':
+                A, rseq = obj(), []
                 continue
-            ctx.case(key=('object-history', first, second), nontrivial=True)
-            A = obj()
+            key = ('M', st['x']) if st['op'] == 'M' else ('R', st['x'], tuple(rseq))
+            what = ' -> '.join(s_['x'] for s_ in hist[:pos + 1])
             try:
-                RG.quiet(pf, A)
-                got = fp(RG.quiet(ps, A))
+                got = fp(RG.quiet(methods[st['x']], A))
             except Exception as ex:
-                ctx.violation('history:ANOVA', 'ANOVA object: %s after %s raised %s: %s (each works on a fresh object)' % (second, first, type(ex).__name__, ex), case={'first': first, 'second': second})
-                continue
-            ctx.check(got == ref[second], 'history:ANOVA', 'ANOVA object (order 2): %s after %s differs from %s on a fresh object built from the same data and seed' % (second, first, second),
-                      case={'first': first, 'second': second})
+                ctx.violation('history:ANOVA', 'ANOVA object (order 2): the call sequence %s raised %s: %s (every method works on a fresh object)' % (what, type(ex).__name__, ex), case={'hist': hist})
+                break
+            if st['op'] == 'R':
+                rseq.append(st['x'])
+            if key in seen:
+                ctx.check(seen[key][0] == got, 'history:ANOVA', 'ANOVA object (order 2): %s after [%s] differs from the same call after [%s] (same data, seed, arguments%s)'
+                          % (st['x'], what, seen[key][1], '' if st['op'] == 'M' else ' and same earlier draws'), case={'hist': hist})
+            else:
+                seen[key] = (got, what)
+    if nrun == 0:
+        raise tlc.TlcError('no ObjHistory behaviour could be replayed')
